@@ -252,6 +252,10 @@ fn check_case(cx: &Ctx, c: &Case, model: &mut Model, rep: &mut Report) -> Option
             rep.oracle_fail(sig, v);
         }
     };
+    if rep.extra.contains_key("aborted") {
+        // an unpredicted hang was seen: a spinning thread may be eating memory, stop evaluating
+        return None;
+    }
     rep.evaluations += 1;
     let prop = if cx.c10 { "C10" } else { "C11" };
     let texts: Vec<String> = c.steps.iter().map(|s| match s {
